@@ -9,6 +9,10 @@ package pipe
 import (
 	"encoding/hex"
 	"fmt"
+	"io"
+
+	structform "github.com/elastic/go-structform"
+	"github.com/elastic/go-structform/json"
 
 	"verif/engines/common"
 	"verif/model"
@@ -21,7 +25,13 @@ type Scenario struct {
 	Source      string `json:"source_hex"`
 	SourceText  string `json:"source_text,omitempty"`
 	Values      int    `json:"values"`
+	Entry       string `json:"entry"` // reader | parse | parsestring | write | decoder | bytes-decoder
 	Reads       []int  `json:"read_sizes,omitempty"`
+	Cuts        []int  `json:"cuts,omitempty"`
+	BufSize     int    `json:"buf_size,omitempty"`
+	ReaderKind  int    `json:"reader_kind,omitempty"`
+	WriterKind  int    `json:"writer_kind,omitempty"`
+	JSONOpts    int    `json:"json_opts,omitempty"` // 1 no HTML escaping, 2 explicit radix point, 4 invalid floats ignored
 	EOFWithData bool   `json:"eof_with_data,omitempty"`
 	Target      string `json:"target_hex,omitempty"`
 }
@@ -90,21 +100,97 @@ func (Engine) Run(c *simkit.Choices, x *simkit.Ctx) *simkit.Violation {
 			st.Fault("short-read")
 		}
 		sc.EOFWithData = c.Bool()
+		sc.Entry = "reader"
+		if c.N(3) == 0 {
+			// the other entry points of the same parser, and other concrete
+			// reader / writer types on the two seams
+			switch c.N(6) {
+			case 0:
+				sc.Entry = "parse"
+			case 1:
+				sc.Entry = "parsestring"
+			case 2:
+				if last := len(doc.OpenEnd) - 1; last < 0 || !doc.OpenEnd[last] {
+					// (a push parser fed through Write has no public end-of-input
+					// call: only streams whose last value is self-delimiting)
+					sc.Entry = "write"
+					for i, k := 0, c.N(5); i < k; i++ {
+						sc.Cuts = append(sc.Cuts, c.N(len(doc.Bytes)+1))
+					}
+					sortInts(sc.Cuts)
+				}
+			case 3:
+				sc.Entry = "decoder"
+				sc.BufSize = common.DrawBufSize(c, len(doc.Bytes))
+				sc.ReaderKind = c.N(simkit.NumReaderKinds)
+			case 4:
+				sc.Entry = "bytes-decoder"
+			default:
+				sc.ReaderKind = 1 + c.N(simkit.NumReaderKinds-1)
+			}
+		}
+		if c.N(4) == 0 {
+			sc.WriterKind = 1 + c.N(3)
+		}
+		if df == model.JSON && c.N(4) == 0 {
+			sc.JSONOpts = 1 + c.N(7)
+		}
 		simkit.SetCurrent(sc)
-	x.Alive()
+		x.Alive()
 		st.Eval(1)
-		st.Distinct(simkit.NewDigest().Str(sc.Src + ">" + sc.Dst).Bytes(doc.Bytes).Ints(sc.Reads).Int(b2i(sc.EOFWithData)).Sum())
+		st.Probe("entry-" + sc.Entry)
+		if sc.JSONOpts != 0 {
+			st.Probe("json-encoder-options")
+		}
+		if sc.WriterKind != 0 {
+			st.Probe("writer-with-optional-interfaces")
+		}
+		st.Distinct(simkit.NewDigest().Str(sc.Src + ">" + sc.Dst + sc.Entry).Bytes(doc.Bytes).Ints(sc.Reads).Ints(sc.Cuts).
+			Int(b2i(sc.EOFWithData)).Int(sc.BufSize).Int(sc.ReaderKind).Int(sc.WriterKind).Int(sc.JSONOpts).Sum())
 
 		w := simkit.NewWriter()
 		w.Clock = &x.Clock
 		rd := &simkit.Reader{Data: simkit.Exact(doc.Bytes), Sizes: sc.Reads, EOFWithData: sc.EOFWithData, Clock: &x.Clock}
 		var err error
+		values := -1
 		pi := simkit.Guard(func() {
-			enc := dst.NewVisitor(w)
+			enc := dst.NewVisitor(w.AsWriter(sc.WriterKind))
+			if jv, ok := enc.(*json.Visitor); ok && sc.JSONOpts != 0 {
+				jv.SetEscapeHTML(sc.JSONOpts&1 == 0)
+				jv.SetExplicitRadixPoint(sc.JSONOpts&2 != 0)
+				jv.SetIgnoreInvalidFloat(sc.JSONOpts&4 != 0)
+			}
 			tap := simkit.NewTap(enc)
 			tap.NoRecord = true
 			tap.Clock = &x.Clock
-			_, err = src.ParseReader(rd, tap)
+			var sink structform.Visitor = tap
+			switch sc.Entry {
+			case "parse":
+				err = src.Parse(simkit.Exact(doc.Bytes), sink)
+			case "parsestring":
+				err = src.ParseString(string(doc.Bytes), sink)
+			case "write":
+				_, err = simkit.Feed(src.NewParser(sink), doc.Bytes, sc.Cuts, true, &x.Clock)
+			case "decoder", "bytes-decoder":
+				var dec common.Decoder
+				if sc.Entry == "decoder" {
+					dec = src.NewDecoder(simkit.AsReader(sc.ReaderKind, rd), sc.BufSize, sink)
+				} else {
+					dec = src.NewBytesDecoder(simkit.Exact(doc.Bytes), sink)
+				}
+				values = 0
+				for values <= n+1 {
+					if err = dec.Next(); err != nil {
+						break
+					}
+					values++
+				}
+				if err == io.EOF {
+					err = nil
+				}
+			default:
+				_, err = src.ParseReader(simkit.AsReader(sc.ReaderKind, rd), sink)
+			}
 		})
 		site := string(sf) + ">" + string(df)
 		sc.Target = hex.EncodeToString(w.Buf)
@@ -112,8 +198,12 @@ func (Engine) Run(c *simkit.Choices, x *simkit.Ctx) *simkit.Violation {
 		if pi != nil {
 			return &simkit.Violation{Kind: "panic", Site: site + pi.Site, Detail: pi.Value + "\n" + pi.Stack, Scenario: sc}
 		}
+		if err == nil && values >= 0 && values != n {
+			return &simkit.Violation{Kind: "value-differs", Site: site + "/" + sc.Entry,
+				Detail: fmt.Sprintf("the pull decoder completed %d values of a stream of %d", values, n), Scenario: sc}
+		}
 		if err != nil {
-			if df == model.JSON && nonFinite {
+			if df == model.JSON && nonFinite && sc.JSONOpts&4 == 0 {
 				st.Probe("non-finite-float-refused-by-json")
 				continue
 			}
@@ -130,7 +220,11 @@ func (Engine) Run(c *simkit.Choices, x *simkit.Ctx) *simkit.Violation {
 				Detail: fmt.Sprintf("%d source values became %d target values", len(doc.Vals), len(got)), Scenario: sc}
 		}
 		for i := range got {
-			if ok, why := model.Equiv(doc.Vals[i], got[i], sf, df); !ok {
+			want := doc.Vals[i]
+			if df == model.JSON && sc.JSONOpts&4 != 0 && nonFinite {
+				want = model.NonFiniteToNull(want) // what SetIgnoreInvalidFloat documents
+			}
+			if ok, why := model.Equiv(want, got[i], sf, df); !ok {
 				return &simkit.Violation{Kind: "value-differs", Site: site,
 					Detail: fmt.Sprintf("value %d: %s", i, why), Scenario: sc}
 			}
@@ -138,6 +232,14 @@ func (Engine) Run(c *simkit.Choices, x *simkit.Ctx) *simkit.Violation {
 	}
 	st.Sample(map[string]interface{}{"pair": string(sf) + ">" + string(df), "values": n, "source_hex": trunc(hex.EncodeToString(doc.Bytes), 100), "read_plans": plans})
 	return nil
+}
+
+func sortInts(a []int) {
+	for i := 1; i < len(a); i++ {
+		for j := i; j > 0 && a[j] < a[j-1]; j-- {
+			a[j], a[j-1] = a[j-1], a[j]
+		}
+	}
 }
 
 func b2i(b bool) int {
